@@ -254,7 +254,8 @@ def d5_tables(ctx):
     cells, wrong = 0, []
     for bo in ('<', '>', '=', '|'):
         for sysbo in ('little', 'big'):
-            env = {'sys.byteorder': sysbo, 'ndarray.dtype.byteorder': bo}
+            env = {k: v for k, v in nt.module.consts.items() if isinstance(v, (str, int, tuple, list, frozenset, set, dict))}
+            env.update({'sys.byteorder': sysbo, 'ndarray.dtype.byteorder': bo})
             param = nt.params[0]
             env[f'{param}.dtype.byteorder'] = bo
             try:
